@@ -217,5 +217,9 @@ fail_fs:
 	fstree_cleanup(&sqfs->fs);
 fail_file:
 	sqfs_drop(sqfs->outfile);
+	/* do not leave the file we just created (or truncated) behind */
+#if !defined(_WIN32) && !defined(__WINDOWS__)
+	unlink(wrcfg->filename);
+#endif
 	return -1;
 }
